@@ -182,7 +182,7 @@ func (c *uvCtx) pointwise(x float64, tag string) {
 	if hc {
 		if pv := catch(func() { cv = c.cdf(x) }); pv != nil {
 			if below || above {
-				r.cls("outside-support", "CDF-outside-support", arg, "CDF panics (%v); want %v", pv, b2f(above))
+				r.cls("support-boundary", "CDF-outside-support", arg, "CDF panics (%v); want %v", pv, b2f(above))
 			} else {
 				r.fail("CDF-panic", arg, "CDF panics: %v", pv)
 			}
@@ -190,9 +190,9 @@ func (c *uvCtx) pointwise(x float64, tag string) {
 		} else {
 			switch {
 			case below && cv != 0:
-				r.cls("outside-support", "CDF-outside-support", arg, "CDF=%v below the support [%v,%v]; want 0", cv, c.lo, c.hi)
+				r.cls("support-boundary", "CDF-outside-support", arg, "CDF=%v below the support [%v,%v]; want 0", cv, c.lo, c.hi)
 			case above && cv != 1:
-				r.cls("outside-support", "CDF-outside-support", arg, "CDF=%v above the support [%v,%v]; want 1", cv, c.lo, c.hi)
+				r.cls("support-boundary", "CDF-outside-support", arg, "CDF=%v above the support [%v,%v]; want 1", cv, c.lo, c.hi)
 			case !(cv >= 0 && cv <= 1):
 				r.fail("CDF-range", arg, "CDF=%v not in [0,1]", cv)
 			}
@@ -201,7 +201,7 @@ func (c *uvCtx) pointwise(x float64, tag string) {
 	if hs {
 		if pv := catch(func() { sv = c.surv(x) }); pv != nil {
 			if below || above {
-				r.cls("outside-support", "Survival-outside-support", arg, "Survival panics (%v); want %v", pv, b2f(below))
+				r.cls("support-boundary", "Survival-outside-support", arg, "Survival panics (%v); want %v", pv, b2f(below))
 			} else {
 				r.fail("Survival-panic", arg, "Survival panics: %v", pv)
 			}
@@ -209,9 +209,9 @@ func (c *uvCtx) pointwise(x float64, tag string) {
 		} else {
 			switch {
 			case below && sv != 1:
-				r.cls("outside-support", "Survival-outside-support", arg, "Survival=%v below the support; want 1", sv)
+				r.cls("support-boundary", "Survival-outside-support", arg, "Survival=%v below the support; want 1", sv)
 			case above && sv != 0:
-				r.cls("outside-support", "Survival-outside-support", arg, "Survival=%v above the support; want 0", sv)
+				r.cls("support-boundary", "Survival-outside-support", arg, "Survival=%v above the support; want 0", sv)
 			case !(sv >= 0 && sv <= 1):
 				r.fail("Survival-range", arg, "Survival=%v not in [0,1]", sv)
 			}
@@ -233,7 +233,7 @@ func (c *uvCtx) pointwise(x float64, tag string) {
 		}
 		if pp != nil || lp != nil {
 			if below || above {
-				r.cls("outside-support", "Prob-outside-support", arg, "Prob/LogProb panics outside the support: %v %v", pp, lp)
+				r.cls("support-boundary", "Prob-outside-support", arg, "Prob/LogProb panics outside the support: %v %v", pp, lp)
 			} else {
 				r.fail("Prob-panic", arg, "Prob/LogProb panics: %v %v", pp, lp)
 			}
@@ -241,10 +241,10 @@ func (c *uvCtx) pointwise(x float64, tag string) {
 		}
 		if below || above {
 			if hp && pv != 0 {
-				r.cls("outside-support", "Prob-outside-support", arg, "Prob=%v outside the support [%v,%v]; want 0", pv, c.lo, c.hi)
+				r.cls("support-boundary", "Prob-outside-support", arg, "Prob=%v outside the support [%v,%v]; want 0", pv, c.lo, c.hi)
 			}
 			if hl && !math.IsInf(lv, -1) {
-				r.cls("outside-support", "Prob-outside-support", arg, "LogProb=%v outside the support [%v,%v]; want -Inf", lv, c.lo, c.hi)
+				r.cls("support-boundary", "Prob-outside-support", arg, "LogProb=%v outside the support [%v,%v]; want -Inf", lv, c.lo, c.hi)
 			}
 			return
 		}
@@ -252,7 +252,7 @@ func (c *uvCtx) pointwise(x float64, tag string) {
 			if c.sp.name == "Binomial" && (c.p[1] == 0 || c.p[1] == 1) {
 				r.cls("binomial-prob-nan-p01", "Prob>=0", arg, "Prob=%v LogProb=%v for P=%v", pv, lv, c.p[1])
 			} else if atEdge {
-				r.cls("density-nan-at-support-edge", "Prob>=0", arg, "Prob=%v LogProb=%v at the edge of the support", pv, lv)
+				r.cls("support-boundary", "Prob>=0", arg, "Prob=%v LogProb=%v at the edge of the support", pv, lv)
 			} else if c.sp.name == "Logistic" && hp && math.IsNaN(pv) && (x-c.p[0])/c.p[1] < -700 {
 				r.cls("logistic-prob-overflow-nan", "Prob>=0", arg, "Prob=%v for (x-Mu)/S=%v; exp overflows", pv, (x-c.p[0])/c.p[1])
 			} else {
@@ -653,7 +653,7 @@ func (c *uvCtx) mode(modeV float64) {
 	if !(pm >= best*(1-tolModeRel)) {
 		cl := ""
 		if math.IsNaN(pm) && (modeV == c.lo || modeV == c.hi) {
-			cl = "density-nan-at-support-edge"
+			cl = "support-boundary"
 		}
 		if c.sp.name == "Weibull" && c.p[0] == 1 && modeV == 0 {
 			cl = "weibull-logprob-at-zero"
